@@ -35,9 +35,23 @@ def annotate(res, an):
         res.assumptions += ['front-end adaptation: ' + x for x in notes[:12]]
 
 
+def lock_analysis_context(repo, res):
+    """C06 / C07 only need to know which accesses happen under this->m_lock: when the behavioural model's anchors do not fit the tree
+    (a member changed its type, a field of the model is gone) the lock analysis still runs, with the misfit recorded"""
+    from frontend import AnalysisIncomplete
+    try:
+        return analysis(repo)
+    except AnalysisIncomplete as e:
+        if 'G-ANCHOR' not in str(e):
+            raise
+        an = analysis(repo, lenient=True)
+        res.assumptions.append('container model anchors do not fit this tree (%s): only the lock discipline is decided here' % str(e)[:200])
+        return an
+
+
 def c06(tier, repo):
     res = Result('C06', 'proof')
-    an = analysis(repo)
+    an = lock_analysis_context(repo, res)
     locks.analyse(an, res, None)
     res.incomplete += an.incomplete
     annotate(res, an)
@@ -55,7 +69,7 @@ def c06(tier, repo):
 
 def c07(tier, repo):
     res = Result('C07', 'proof')
-    an = analysis(repo)
+    an = lock_analysis_context(repo, res)
     locks.analyse(an, None, res)
     res.incomplete += an.incomplete
     annotate(res, an)
